@@ -201,7 +201,7 @@ def run(ctx):
                     sig += ':at-rparen:' + error_state_kind(bl)
             else: sig = 'verdict-differs:%s' % mode
             sig_count[sig] += 1
-            fid = common.match_finding(findings, sig)
+            fid = common.match_finding(findings, sig, ' '.join(names))
             if fid: finding_hits.setdefault(fid, ' '.join(names))
             elif len(violations) < 25 and not any(v['signature'] == sig for v in violations):
                 violations.append(dict(property=prop, alphabet=aname, mode=mode, tokens=names, signature=sig, impl=i, grammar_says=list(exp),
